@@ -183,8 +183,13 @@ pub fn stream_parse_sweep(out: &mut impl Write, seed: u64, step: usize) {
             let bin = rng.bytes(variant_bin_len(vi));
             let base = hash_text(vi, &bin, with_prefix);
             let start = rng.below(step as u64) as usize;
+            // every header position (prefix, checksum, length, Q ratios: decoded by other code than the
+            // body) and the first body pair always; the body at every `step`-th position
+            let header = (if with_prefix { 2 } else { 0 }) + 2 * (variant_bin_len(vi) - VARIANT_BUCKETS[vi] / 4) + 2;
+            let mut positions: Vec<usize> = (0..header.min(base.len())).collect();
             let mut p = start;
-            while p < base.len() {
+            while p < base.len() { if p >= header { positions.push(p); } p += step; }
+            for p in positions {
                 for b in 0..=255u8 {
                     let mut s = base.clone();
                     s[p] = b;
@@ -207,7 +212,6 @@ pub fn stream_parse_sweep(out: &mut impl Write, seed: u64, step: usize) {
                         }
                     }
                 }
-                p += step;
             }
         }
     }
